@@ -2,6 +2,7 @@ package c07
 
 import (
 	"fmt"
+	"sort"
 	"strings"
 
 	"owverif.local/verif/sched"
@@ -218,6 +219,35 @@ func Spec() *vf.Check {
 			cov["race_detector_enabled"] = vrt.RaceEnabled
 			cov["tla"] = map[string]interface{}{"tlc_distinct_states": m.Counters["tlc_distinct_states"], "tlc_model_edges": m.Counters["tlc_model_edges"],
 				"model_edges_exercised_by_implementation_traces": len(m.States), "implementation_traces_checked_against_model": m.Counters["impl_traces_checked_against_model"]}
+			// which model edges no implementation trace went through (model behaviours the explored schedules did not
+			// produce: beyond the deviation bound, or slack of the model's over-approximations)
+			if m.Counters["tla_part_unavailable"] == 0 {
+				byEvent := map[string]int{}
+				var examples []string
+				total, unc := 0, 0
+				for _, G := range []int{2, 3, 4} {
+					mg, err := loadGraph(G)
+					if err != nil {
+						continue
+					}
+					for s0, ts := range mg.succ {
+						for _, t := range ts {
+							total++
+							if _, ok := m.States[hashEdge(G, s0+">"+t)]; ok {
+								continue
+							}
+							unc++
+							byEvent[fmt.Sprintf("G=%d %s", G, mg.event[t])]++
+							if len(examples) < 12 {
+								examples = append(examples, fmt.Sprintf("G=%d: [%s] --%s--> ...", G, mg.label[s0], mg.event[t]))
+							}
+						}
+					}
+				}
+				sort.Strings(examples)
+				tl := cov["tla"].(map[string]interface{})
+				tl["model_edges_in_dumped_graphs"], tl["model_edges_not_exercised"], tl["model_edges_not_exercised_by_event"], tl["model_edges_not_exercised_examples"] = total, unc, byEvent, examples
+			}
 			if m.Counters["tla_part_unavailable"] > 0 {
 				cov["exhaustive"] = false
 				cov["tla"].(map[string]interface{})["available"] = false
